@@ -136,6 +136,7 @@ type Stats struct {
 	KnownHits  map[string]int `json:"known_hits"`
 	Samples    []string       `json:"samples"`
 	Roots      []string       `json:"roots"`
+	Digest     uint64         `json:"history_digest"`
 }
 
 // ProcResult is the outcome of one (property, root) process.
@@ -159,14 +160,22 @@ var (
 
 // RunOpts for one process.
 type RunOpts struct {
-	Prop     string
-	Root     string
-	Seed     uint64
-	Checks   int
-	Steps    int
-	Known    []string
-	FailFile string // replay: path of a rapid fail file
-	Timeout  time.Duration
+	Prop       string
+	Root       string
+	Seed       uint64
+	Checks     int
+	Steps      int
+	Known      []string
+	FailFile   string // replay: path of a rapid fail file
+	Timeout    time.Duration
+	GoMaxProcs int
+}
+
+func gomaxprocs(n int) string {
+	if n <= 0 {
+		n = 2
+	}
+	return strconv.Itoa(n)
 }
 
 // RunProc runs one harness process.
@@ -193,7 +202,7 @@ func (s *Sim) RunProc(o RunOpts) *ProcResult {
 	cmd := exec.Command(s.Bin, args...)
 	cmd.Dir = dir
 	cmd.Env = append(os.Environ(), "VERIF_PROGRAM="+s.ProgJS, "VERIF_PROP="+o.Prop, "VERIF_ROOTS="+o.Root, "VERIF_OUT="+out,
-		"VERIF_KNOWN="+knownPath, "VERIF_STEPS="+strconv.Itoa(o.Steps), "GOMAXPROCS=2")
+		"VERIF_KNOWN="+knownPath, "VERIF_STEPS="+strconv.Itoa(o.Steps), "GOMAXPROCS="+gomaxprocs(o.GoMaxProcs))
 	var buf bytes.Buffer
 	cmd.Stdout, cmd.Stderr = &buf, &buf
 	err = cmd.Run()
@@ -389,7 +398,10 @@ func Check(verifRoot, self, prop, tier string, seed uint64) (*Result, error) {
 	}
 	checks, steps, nRandom, rchecks := 400, 8, 2, 150
 	if tier == "thorough" {
-		checks, steps, nRandom, rchecks = 4000, 20, 14, 800
+		checks, steps, nRandom, rchecks = 30000, 20, 40, 6000
+		if prop == "C06" { // every history enumerates all single faults of its object
+			checks, rchecks = 8000, 1500
+		}
 	}
 	if v := os.Getenv("VERIF_CHECKS"); v != "" {
 		if n, err := strconv.Atoi(v); err == nil {
@@ -584,4 +596,63 @@ func ReplayFile(verifRoot, self, path string) (string, string, error) {
 		return "", "", &pipeline.BuildError{What: "replay run failed", Out: r.Err.Error()}
 	}
 	return r.Signature, r.Detail, nil
+}
+
+// Determinism runs the same (property, root, seed) process n times at several GOMAXPROCS values and
+// reports whether every run produced the same history digest.
+func Determinism(verifRoot, self string, props []string, n int) (map[string]interface{}, bool, error) {
+	p := spec.Corpus()
+	sim, cleanup, err := BuildAll(verifRoot, self, p)
+	if err != nil {
+		return nil, false, err
+	}
+	defer cleanup()
+	ok := true
+	report := map[string]interface{}{}
+	procs := []int{1, 4, 16}
+	for _, prop := range props {
+		for _, root := range []string{"Nesting", "Oneofs", "Sink"} {
+			for _, seed := range []uint64{3, 1234567} {
+				var wg sync.WaitGroup
+				digests := make([]uint64, n)
+				iters := make([]int, n)
+				var firstErr error
+				var mu sync.Mutex
+				sem := make(chan struct{}, runtime.NumCPU()/2+1)
+				for i := 0; i < n; i++ {
+					wg.Add(1)
+					go func(i int) {
+						defer wg.Done()
+						sem <- struct{}{}
+						defer func() { <-sem }()
+						r := sim.RunProc(RunOpts{Prop: prop, Root: root, Seed: seed, Checks: 60, Steps: 8, GoMaxProcs: procs[i%len(procs)]})
+						mu.Lock()
+						defer mu.Unlock()
+						if r.Err != nil && firstErr == nil {
+							firstErr = r.Err
+						}
+						if r.Stats != nil {
+							digests[i], iters[i] = r.Stats.Digest, r.Stats.Iterations
+						}
+					}(i)
+				}
+				wg.Wait()
+				if firstErr != nil {
+					return nil, false, firstErr
+				}
+				same := true
+				for i := 1; i < n; i++ {
+					if digests[i] != digests[0] || iters[i] != iters[0] {
+						same = false
+					}
+				}
+				key := fmt.Sprintf("%s/%s/seed=%d", prop, root, seed)
+				report[key] = map[string]interface{}{"runs": n, "identical": same, "digest": fmt.Sprintf("%016x", digests[0]), "iterations": iters[0]}
+				if !same || digests[0] == 0 {
+					ok = false
+				}
+			}
+		}
+	}
+	return report, ok, nil
 }
